@@ -264,6 +264,87 @@ Proof.
       split; [exact Hne|]. intros q Hq. destruct (Hin q Hq) as [Hr _]. cbn [loop_p pp] in Hr. lia.
 Qed.
 
+(* ---- every API record that a component creates carries the generated identifier of its
+        own index (so the generated identifiers are pairwise distinct and none is a test id) ---- *)
+Definition apis_ok (N : NS) (s : xstmt) (p : pos) : Prop :=
+  forall k, pa p <= k < pa p + napis s -> exists a, nth_error (ns_apis N) k = Some a /\ a_uuid a = IUuid k.
+
+Lemma apis_ok_block : forall N l,
+    Forall (fun s => frag s = true -> forall p ctx xcbs, wired N s p ctx xcbs -> apis_ok N s p) l ->
+    frag_block l = true -> forall p ctx xcbs, wired_block (wired N) N ctx xcbs l p ->
+    forall k, pa p <= k < pa p + napis_l l -> exists a, nth_error (ns_apis N) k = Some a /\ a_uuid a = IUuid k.
+Proof.
+  intros N. induction l as [|s r IH]; intros HF Hf p ctx xcbs Hw k Hk; [discriminate|].
+  inversion HF as [|? ? Hs Hr]; subst. apply frag_block_cons in Hf. destruct Hf as [Hfs Hfr].
+  destruct r as [|s' r].
+  - cbn [wired_block] in Hw. rewrite napis_l_one in Hk. apply (Hs Hfs p ctx xcbs Hw k Hk).
+  - destruct Hfr as [Hfr|Hfr]; [discriminate|].
+    cbn [wired_block] in Hw. cbv zeta in Hw. destruct Hw as (_ & _ & _ & Hws & Hwr).
+    rewrite napis_l_cons in Hk.
+    destruct (Nat.lt_ge_cases k (pa p + napis s)) as [Hlt|Hge].
+    + apply (Hs Hfs (conn_skip p) ctx [] Hws k). cbn [conn_skip pa]. lia.
+    + apply (IH Hr Hfr (adv s (conn_skip p)) ctx xcbs Hwr k). cbn [adv conn_skip pa]. lia.
+Qed.
+
+Lemma apis_ok_list : forall N l,
+    Forall (fun s => frag s = true -> forall p ctx xcbs, wired N s p ctx xcbs -> apis_ok N s p) l ->
+    frag_brs l = true -> forall q ctx, wired_list (wired N) ctx l q ->
+    forall k, pa q <= k < pa q + napis_l l -> exists a, nth_error (ns_apis N) k = Some a /\ a_uuid a = IUuid k.
+Proof.
+  intros N. induction l as [|b r IH]; intros HF Hf q ctx Hw k Hk.
+  - unfold napis_l in Hk. cbn in Hk. lia.
+  - inversion HF as [|? ? Hb Hr]; subst. apply frag_brs_cons in Hf. destruct Hf as (_ & Hfb & Hfr).
+    cbn [wired_list] in Hw. destruct Hw as [Hwb Hwr]. rewrite napis_l_cons in Hk.
+    destruct (Nat.lt_ge_cases k (pa q + napis b)) as [Hlt|Hge].
+    + apply (Hb Hfb q ctx [] Hwb k). lia.
+    + apply (IH Hr Hfr (adv b q) ctx Hwr k). cbn [adv pa]. lia.
+Qed.
+
+Lemma apis_ok_all : forall N s, frag s = true -> forall p ctx xcbs, wired N s p ctx xcbs -> apis_ok N s p.
+Proof.
+  intros N.
+  induction s as [n a i|t a i body IH|bs IH|e0 p f IHp IHf|e0 b IH|v l b IH|v l c IH] using xstmt_ind';
+    intros Hf p0 ctx xcbs Hw; try discriminate Hf.
+  - cbn [wired] in Hw. destruct Hw as (_ & _ & _ & (il & Ha) & _). intros k Hk. cbn [napis] in Hk.
+    assert (k = pa p0) by lia. subst k. eexists. split; [exact Ha|reflexivity].
+  - apply frag_call in Hf. destruct Hf as [_ Hf]. cbn [wired] in Hw. destruct Hw as [(il & Ha) Hw].
+    intros k Hk. rewrite napis_call in Hk. destruct (Nat.eq_dec k (pa p0)) as [->|Hne].
+    + eexists. split; [exact Ha|reflexivity].
+    + apply (apis_ok_block N body IH Hf (body_pos t p0) (pa p0) (CbTF (pa p0) :: xcbs) Hw k). cbn [body_pos pa]. lia.
+  - pose proof (frag_par _ Hf) as [_ Hfb]. cbn [wired] in Hw. destruct Hw as (_ & _ & _ & Hw).
+    intros k Hk. rewrite napis_par in Hk. apply (apis_ok_list N bs IH Hfb (par_pos p0) ctx Hw k). cbn [par_pos pa]. lia.
+  - destruct (list_nil_dec f) as [->|HneF].
+    { pose proof (frag_cond0 _ _ Hf) as HfP. cbn [wired] in Hw.
+      destruct Hw as (_ & _ & _ & _ & _ & _ & _ & _ & _ & WP).
+      intros k Hk. rewrite napis_cond in Hk. change (napis_l (@nil xstmt)) with 0 in Hk.
+      apply (apis_ok_block N p IHp HfP (cond_p p0) ctx [] WP k). cbn [cond_p pa]. lia. }
+    pose proof (frag_cond_ne _ _ _ HneF Hf) as [HfP HfF]. rewrite (wired_cond_ne _ _ _ _ _ _ _ HneF) in Hw.
+    destruct Hw as (_ & _ & _ & _ & _ & _ & _ & _ & _ & _ & _ & _ & WP & WF).
+    intros k Hk. rewrite napis_cond in Hk.
+    destruct (Nat.lt_ge_cases k (pa p0 + napis_l p)) as [Hlt|Hge].
+    + apply (apis_ok_block N p IHp HfP (cond_p p0) ctx [] WP k). cbn [cond_p pa]. lia.
+    + apply (apis_ok_block N f IHf HfF (cond_f p p0) ctx [] WF k). cbn [cond_f pa]. lia.
+  - pose proof (frag_while _ _ Hf) as HfB. cbn [wired] in Hw.
+    destruct Hw as (_ & _ & _ & _ & _ & _ & _ & _ & _ & WB).
+    intros k Hk. rewrite napis_while in Hk. apply (apis_ok_block N b IH HfB (loop_p p0) ctx [] WB k). cbn [loop_p pa]. lia.
+  - pose proof (frag_count _ _ _ Hf) as HfB. cbn [wired] in Hw.
+    destruct Hw as (_ & _ & _ & _ & _ & _ & _ & _ & _ & WB).
+    intros k Hk. rewrite napis_count in Hk. apply (apis_ok_block N b IH HfB (loop_p p0) ctx [] WB k). cbn [loop_p pa]. lia.
+Qed.
+
+(* the whole net: only the production task's record (index 0) carries a test identifier *)
+Lemma NetOf_uuids : forall body N, frag_block body = true -> NetOf body N ->
+    forall k a, nth_error (ns_apis N) k = Some a -> k = 0 \/ a_uuid a = IUuid k.
+Proof.
+  intros body N Hf HN k a Hk. destruct k as [|k]; [left; reflexivity|right].
+  assert (Hlt : S k < 1 + napis_l body).
+  { rewrite <- (no_napis _ _ HN). apply nth_error_Some. congruence. }
+  assert (HF : Forall (fun s => frag s = true -> forall p ctx xcbs, wired N s p ctx xcbs -> apis_ok N s p) body).
+  { apply Forall_forall. intros s _. apply apis_ok_all. }
+  destruct (apis_ok_block N body HF Hf p0 0 [] (no_body _ _ HN) (S k)) as (a' & Ha' & Hu); [cbn [p0 pa]; lia|].
+  congruence.
+Qed.
+
 (* =========================================================================== *)
 (* markings                                                                     *)
 (* =========================================================================== *)
@@ -445,6 +526,57 @@ Proof. reflexivity. Qed.
 Lemma ml_count : forall k i st v l B p, ml (RLoop k i st) (XCount v l B) p = ml_block B (loop_p p) i st.
 Proof. reflexivity. Qed.
 
+(* =========================================================================== *)
+(* counting loops: the loop counters of a task instance                          *)
+(* =========================================================================== *)
+(* the counters dict of a task instance: one entry per running counting loop, outermost first *)
+Definition enc (kl : list (site * nat)) : list (lkey * cval) :=
+  map (fun kk => (KLoop (fst kk), CInt (snd kk))) kl.
+(* [kl] = the running counting loops of the task instance [cid], innermost first *)
+Definition C0 (ns : NS) (cid : nat) (kl : list (site * nat)) : Prop := counters_of (ITest cid) ns = enc (rev kl).
+
+(* the chain of running counting loops (of the same task instance) down the active path *)
+Fixpoint rch (st : rst) (s : xstmt) (p : pos) (kl : list (site * nat)) {struct st} : list (site * nat) :=
+  match st, s with
+  | RCond b i st', XCond _ P F =>
+    match nth_error (if b then P else F) i with
+    | Some s' => rch st' s' (spos (if b then P else F) (if b then cond_p p else cond_f P p) i) kl
+    | None => kl
+    end
+  | RLoop _ i st', XWhile _ B =>
+    match nth_error B i with
+    | Some s' => rch st' s' (spos B (loop_p p) i) kl
+    | None => kl
+    end
+  | RLoop k i st', XCount _ _ B =>
+    match nth_error B i with
+    | Some s' => rch st' s' (spos B (loop_p p) i) ((pkey p, k) :: kl)
+    | None => (pkey p, k) :: kl
+    end
+  | _, _ => kl
+  end.
+Definition rch_block (l : list xstmt) (bp : pos) (i : nat) (st : rst) (kl : list (site * nat)) : list (site * nat) :=
+  match nth_error l i with Some s' => rch st s' (spos l bp i) kl | None => kl end.
+Definition rchb (l : list xstmt) (bp : pos) (r : option (nat * rst)) (kl : list (site * nat)) : list (site * nat) :=
+  match r with None => kl | Some (j, st) => rch_block l bp j st kl end.
+
+Lemma rch_done : forall s p kl, rch RDone s p kl = kl. Proof. reflexivity. Qed.
+Lemma rch_cond : forall (b : bool) i st e P F p kl,
+    rch (RCond b i st) (XCond e P F) p kl = rch_block (if b then P else F) (if b then cond_p p else cond_f P p) i st kl.
+Proof. reflexivity. Qed.
+Lemma rch_loop : forall k i st e B p kl, rch (RLoop k i st) (XWhile e B) p kl = rch_block B (loop_p p) i st kl.
+Proof. reflexivity. Qed.
+Lemma rch_count : forall k i st v l B p kl,
+    rch (RLoop k i st) (XCount v l B) p kl = rch_block B (loop_p p) i st ((pkey p, k) :: kl).
+Proof. reflexivity. Qed.
+Lemma rch_call : forall cid i st t a ins body p kl, rch (RCall cid i st) (XCall t a ins body) p kl = kl.
+Proof. reflexivity. Qed.
+Lemma rch_par : forall sts bs p kl, rch (RPar sts) (XParallel bs) p kl = kl.
+Proof. reflexivity. Qed.
+Lemma rch_await : forall id s p kl, rch (RAwait id) s p kl = kl.
+Proof. intros. destruct s; reflexivity. Qed.
+
+
 Definition EvF (i : nat) : event := EvFinish (ITest i).
 
 (* the API records and place_dict bindings of the active part of the tree, and its shape
@@ -461,7 +593,8 @@ Section Act.
       (exists il, nth_error (ns_apis ns) (pa p) = Some (with_uuid (ITest id) (svc_api il n at_ ins ctx (pa p)))) /\
       dict_get ident_eqb (ITest id) (ns_place_dict ns) = Some (pp p + 1) /\ id < ns_sid ns
     | RCall cid i st', XCall t at_ ins body =>
-      (exists il, nth_error (ns_apis ns) (pa p) = Some (with_uuid (ITest cid) (call_api il t at_ ins ctx (pa p)))) /\
+      ((exists il, nth_error (ns_apis ns) (pa p) = Some (with_uuid (ITest cid) (call_api il t at_ ins ctx (pa p)))) /\
+       C0 ns cid (rch_block body (body_pos t p) i st' [])) /\
       is_done st' = false /\ (ns_trans N0 = ns_trans N0) /\
       match nth_error body i with
       | Some s' => act st' s' (spos body (body_pos t p) i) (pa p)
@@ -519,7 +652,8 @@ Section Act.
   Proof. reflexivity. Qed.
   Lemma act_call : forall cid i st t at_ ins body p ctx,
       act (RCall cid i st) (XCall t at_ ins body) p ctx
-      = ((exists il, nth_error (ns_apis ns) (pa p) = Some (with_uuid (ITest cid) (call_api il t at_ ins ctx (pa p)))) /\
+      = (((exists il, nth_error (ns_apis ns) (pa p) = Some (with_uuid (ITest cid) (call_api il t at_ ins ctx (pa p)))) /\
+          C0 ns cid (rch_block body (body_pos t p) i st [])) /\
          act_block body (body_pos t p) (pa p) i st).
   Proof. reflexivity. Qed.
 
@@ -968,22 +1102,27 @@ Lemma act_mono : forall N0 ns ns' st s p ctx,
     ns_sid ns <= ns_sid ns' ->
     (exists d, ns_place_dict ns' = d ++ ns_place_dict ns /\
                Forall (fun kv => exists i, fst kv = ITest i /\ ns_sid ns <= i) d) ->
+    (forall k ac, pa p <= k < pa p + napis s -> nth_error (ns_apis ns) k = Some ac -> a_is_task ac = true ->
+                  counters_of (a_uuid ac) ns' = counters_of (a_uuid ac) ns) ->
     act N0 ns' st s p ctx.
 Proof.
   intros N0 ns ns'. induction st as [|id|cid i st' IH|sts IH|b i st' IH|k i st' IH|sts IH] using rst_ind';
-    intros s p ctx Hf Ha Hap Hsid Hd.
+    intros s p ctx Hf Ha Hap Hsid Hd Hcn.
   - destruct s; exact I.
   - destruct s; cbn [act] in *; try contradiction. destruct Ha as (A1 & A2 & A3).
     split; [rewrite Hap by (cbn [napis]; lia); exact A1|]. split; [|lia].
     destruct Hd as (d & Hd & Hk). rewrite Hd. rewrite (dict_get_ITest_skip d _ (ns_sid ns) id Hk A3). exact A2.
   - destruct s as [| t at_ ins body | | | | | ]; cbn [act] in *; try contradiction.
     destruct Ha as (A1 & A2 & A2' & A3). rewrite napis_call in Hap.
-    split; [rewrite Hap by lia; exact A1|]. split; [exact A2|].
+    rewrite napis_call in Hcn. destruct A1 as [(il & A1) A1c].
+    split; [split; [exists il; rewrite Hap by lia; exact A1|]|].
+    { unfold C0 in *. rewrite <- A1c. apply (Hcn (pa p) _ ltac:(lia) A1 eq_refl). }
+    split; [exact A2|].
     split; [reflexivity|].
     destruct (nth_error body i) as [s'|] eqn:En; [|contradiction].
     pose proof (frag_call _ _ _ _ Hf) as [_ Hfb]. pose proof (frag_block_nth _ _ _ Hfb En) as Hfs.
-    apply IH; try assumption. intros k0 Hk0. apply Hap.
-    pose proof (spos_range body (body_pos t p) i s' En) as R. cbn [body_pos pa] in R. lia.
+    pose proof (spos_range body (body_pos t p) i s' En) as R. cbn [body_pos pa] in R.
+    apply IH; try assumption; [intros k0 Hk0; apply Hap; lia|intros k0 ac0 Hk0; apply Hcn; lia].
   - destruct s as [| |bs| | | | ]; cbn [act] in Ha; try (destruct Ha; contradiction).
     apply act_par in Ha. apply act_par. destruct Ha as [A1 A2]. split; [exact A1|].
     pose proof (frag_par _ Hf) as [_ Hfb]. rewrite napis_par in Hap.
@@ -992,16 +1131,21 @@ Proof.
                   ns_sid ns <= ns_sid ns' ->
                   (exists d, ns_place_dict ns' = d ++ ns_place_dict ns /\
                              Forall (fun kv => exists i, fst kv = ITest i /\ ns_sid ns <= i) d) ->
+                  (forall k ac, pa p <= k < pa p + napis s -> nth_error (ns_apis ns) k = Some ac -> a_is_task ac = true ->
+                                counters_of (a_uuid ac) ns' = counters_of (a_uuid ac) ns) ->
                   act N0 ns' st s p ctx) sts0 ->
                 frag_brs bs0 = true -> act_list N0 ns sts0 bs0 q ctx ->
                 (forall k, pa q <= k < pa q + napis_l bs0 -> nth_error (ns_apis ns') k = nth_error (ns_apis ns) k) ->
+                (forall k ac, pa q <= k < pa q + napis_l bs0 -> nth_error (ns_apis ns) k = Some ac -> a_is_task ac = true ->
+                              counters_of (a_uuid ac) ns' = counters_of (a_uuid ac) ns) ->
                 act_list N0 ns' sts0 bs0 q ctx).
-    { induction sts0 as [|st1 sr IHs]; intros [|b1 br] q HF Hfb0 Hal Hap0; cbn [act_list] in *; try contradiction; [exact I|].
+    { induction sts0 as [|st1 sr IHs]; intros [|b1 br] q HF Hfb0 Hal Hap0 Hcn0; cbn [act_list] in *; try contradiction; [exact I|].
       inversion HF as [|? ? H1 H2]; subst. apply frag_brs_cons in Hfb0. destruct Hfb0 as (_ & Hf1 & Hfr).
-      destruct Hal as [B1 B2]. rewrite napis_l_cons in Hap0. split.
-      - apply H1; try assumption. intros k0 Hk0. apply Hap0. lia.
-      - apply IHs; try assumption. intros k0 Hk0. apply Hap0. cbn [adv pa] in Hk0. lia. }
-    apply G; assumption.
+      destruct Hal as [B1 B2]. rewrite napis_l_cons in Hap0, Hcn0. split.
+      - apply H1; try assumption; [intros k0 Hk0; apply Hap0; lia|intros k0 ac0 Hk0; apply Hcn0; lia].
+      - apply IHs; try assumption; [intros k0 Hk0; apply Hap0; cbn [adv pa] in Hk0; lia|
+                                    intros k0 ac0 Hk0; apply Hcn0; cbn [adv pa] in Hk0; lia]. }
+    rewrite napis_par in Hcn. apply G; assumption.
   - destruct s as [| | |e P F| | | ]; cbn [act] in *; try contradiction.
     destruct Ha as (A2 & A2' & A3). rewrite napis_cond in Hap.
     pose proof (frag_cond_P _ _ _ Hf) as HfP.
@@ -1016,20 +1160,21 @@ Proof.
     assert (Hfs : frag s' = true).
     { destruct b; [apply (frag_block_nth _ _ _ HfP En)|].
       apply (frag_block_nth F i s'); [|exact En]. apply (frag_cond_F _ _ _ Hf). intros ->. destruct i; discriminate En. }
-    apply IH; try assumption. intros k0 Hk0. apply Hap. pose proof (Hrng i s' En). lia.
+    rewrite napis_cond in Hcn. pose proof (Hrng i s' En).
+    apply IH; try assumption; [intros k0 Hk0; apply Hap; lia|intros k0 ac0 Hk0; apply Hcn; lia].
   - destruct s as [| | | |e B|cv cl B| ]; cbn [act] in *; try contradiction.
-    { destruct Ha as (A2 & A2' & A3). rewrite napis_while in Hap.
+    { destruct Ha as (A2 & A2' & A3). rewrite napis_while in Hap, Hcn.
       pose proof (frag_while _ _ Hf) as HfB.
       split; [exact A2|]. split; [reflexivity|].
       destruct (nth_error B i) as [s'|] eqn:En; [|contradiction].
-      apply IH; try assumption; [apply (frag_block_nth _ _ _ HfB En)|].
-      intros k0 Hk0. apply Hap. pose proof (spos_range B (loop_p p) i s' En) as R. cbn [loop_p pa] in R. lia. }
-    { destruct Ha as (A2 & A2' & A3). rewrite napis_count in Hap.
+      pose proof (spos_range B (loop_p p) i s' En) as R. cbn [loop_p pa] in R.
+      apply IH; try assumption; [apply (frag_block_nth _ _ _ HfB En)|intros k0 Hk0; apply Hap; lia|intros k0 ac0 Hk0; apply Hcn; lia]. }
+    { destruct Ha as (A2 & A2' & A3). rewrite napis_count in Hap, Hcn.
       pose proof (frag_count _ _ _ Hf) as HfB.
       split; [exact A2|]. split; [reflexivity|].
       destruct (nth_error B i) as [s'|] eqn:En; [|contradiction].
-      apply IH; try assumption; [apply (frag_block_nth _ _ _ HfB En)|].
-      intros k0 Hk0. apply Hap. pose proof (spos_range B (loop_p p) i s' En) as R. cbn [loop_p pa] in R. lia. }
+      pose proof (spos_range B (loop_p p) i s' En) as R. cbn [loop_p pa] in R.
+      apply IH; try assumption; [apply (frag_block_nth _ _ _ HfB En)|intros k0 Hk0; apply Hap; lia|intros k0 ac0 Hk0; apply Hcn; lia]. }
   - destruct s; cbn [act] in Ha; contradiction.
 Qed.
 
@@ -1322,9 +1467,12 @@ Lemma act_list_update : forall N0 ns ns' sts bs q0 ctx k st' b,
     ns_sid ns <= ns_sid ns' ->
     (exists d, ns_place_dict ns' = d ++ ns_place_dict ns /\
                Forall (fun kv => exists i, fst kv = ITest i /\ ns_sid ns <= i) d) ->
+    (forall a ac, ~ (pa (bpos bs q0 k) <= a < pa (bpos bs q0 k) + napis b) -> pa q0 <= a ->
+                  nth_error (ns_apis ns) a = Some ac -> a_is_task ac = true ->
+                  counters_of (a_uuid ac) ns' = counters_of (a_uuid ac) ns) ->
     act_list N0 ns' (update_nth k st' sts) bs q0 ctx.
 Proof.
-  intros N0 ns ns'. induction sts as [|st1 sr IH]; intros [|b1 br] q0 ctx k st' b Hf Ha Hb Hact Hap Hsid Hd;
+  intros N0 ns ns'. induction sts as [|st1 sr IH]; intros [|b1 br] q0 ctx k st' b Hf Ha Hb Hact Hap Hsid Hd Hcn;
     cbn [act_list] in Ha; try contradiction; try (destruct k; discriminate).
   destruct Ha as [A1 A2]. apply frag_brs_cons in Hf. destruct Hf as (_ & Hf1 & Hfr).
   destruct k as [|k]; cbn [nth_error bpos update_nth] in *.
@@ -1333,13 +1481,15 @@ Proof.
     assert (G : forall sr br q1, pa q0 + napis b <= pa q1 -> frag_brs br = true -> act_list N0 ns sr br q1 ctx -> act_list N0 ns' sr br q1 ctx).
     { induction sr0 as [|s2 sr2 IH2]; intros [|b2 br2] q2 Hq Hf2 Ha2; cbn [act_list] in *; try contradiction; [exact I|].
       destruct Ha2 as [B1 B2]. apply frag_brs_cons in Hf2. destruct Hf2 as (_ & Hfb2 & Hfr2). split.
-      - apply (act_mono N0 ns ns' s2 b2 q2 ctx Hfb2 B1); [|exact Hsid|exact Hd]. intros a Ha. apply Hap. lia.
+      - apply (act_mono N0 ns ns' s2 b2 q2 ctx Hfb2 B1); [|exact Hsid|exact Hd|]; [intros a Ha; apply Hap; lia|].
+        intros a ac Ha. apply Hcn; lia.
       - apply IH2; [cbn [adv pa]; lia|exact Hfr2|exact B2]. }
     apply G; [cbn [adv pa]; lia|exact Hfr|exact A2].
   - cbn [act_list]. split.
-    + apply (act_mono N0 ns ns' st1 b1 q0 ctx Hf1 A1); [|exact Hsid|exact Hd]. intros a Ha. apply Hap.
-      pose proof (bpos_range br (adv b1 q0) k b Hb) as R. cbn [adv pa] in R. lia.
-    + eapply IH; eassumption.
+    + pose proof (bpos_range br (adv b1 q0) k b Hb) as R. cbn [adv pa] in R.
+      apply (act_mono N0 ns ns' st1 b1 q0 ctx Hf1 A1); [|exact Hsid|exact Hd|]; [intros a Ha; apply Hap; lia|].
+      intros a ac Ha. apply Hcn; lia.
+    + eapply IH; try eassumption. intros a ac Ha Hq. apply Hcn; [exact Ha|cbn [adv pa] in Hq; lia].
 Qed.
 
 Lemma list_cover_p : forall l q x, pp q <= x < pp q + nplaces_l l ->
@@ -1563,66 +1713,17 @@ Proof. intros st b q H. destruct st; try reflexivity. discriminate H. Qed.
 Lemma in_ids_nd : forall st id, In id (svc_ids st) -> is_done st = false.
 Proof. intros st id H. destruct st; try reflexivity. contradiction. Qed.
 
-(* =========================================================================== *)
-(* counting loops: the loop counters of the production task                     *)
-(* =========================================================================== *)
-(* the counters dict of a task instance: one entry per running counting loop, outermost first *)
-Definition enc (kl : list (site * nat)) : list (lkey * cval) :=
-  map (fun kk => (KLoop (fst kk), CInt (snd kk))) kl.
-(* [kl] = the running counting loops of the production task, innermost first *)
-Definition C0 (ns : NS) (kl : list (site * nat)) : Prop := counters_of (ITest 0) ns = enc (rev kl).
-
-(* the chain of running counting loops (of the same task instance) down the active path *)
-Fixpoint rch (st : rst) (s : xstmt) (p : pos) (kl : list (site * nat)) {struct st} : list (site * nat) :=
-  match st, s with
-  | RCond b i st', XCond _ P F =>
-    match nth_error (if b then P else F) i with
-    | Some s' => rch st' s' (spos (if b then P else F) (if b then cond_p p else cond_f P p) i) kl
-    | None => kl
-    end
-  | RLoop _ i st', XWhile _ B =>
-    match nth_error B i with
-    | Some s' => rch st' s' (spos B (loop_p p) i) kl
-    | None => kl
-    end
-  | RLoop k i st', XCount _ _ B =>
-    match nth_error B i with
-    | Some s' => rch st' s' (spos B (loop_p p) i) ((pkey p, k) :: kl)
-    | None => (pkey p, k) :: kl
-    end
-  | _, _ => kl
-  end.
-Definition rch_block (l : list xstmt) (bp : pos) (i : nat) (st : rst) (kl : list (site * nat)) : list (site * nat) :=
-  match nth_error l i with Some s' => rch st s' (spos l bp i) kl | None => kl end.
-Definition rchb (l : list xstmt) (bp : pos) (r : option (nat * rst)) (kl : list (site * nat)) : list (site * nat) :=
-  match r with None => kl | Some (j, st) => rch_block l bp j st kl end.
-
-Lemma rch_done : forall s p kl, rch RDone s p kl = kl. Proof. reflexivity. Qed.
-Lemma rch_cond : forall (b : bool) i st e P F p kl,
-    rch (RCond b i st) (XCond e P F) p kl = rch_block (if b then P else F) (if b then cond_p p else cond_f P p) i st kl.
-Proof. reflexivity. Qed.
-Lemma rch_loop : forall k i st e B p kl, rch (RLoop k i st) (XWhile e B) p kl = rch_block B (loop_p p) i st kl.
-Proof. reflexivity. Qed.
-Lemma rch_count : forall k i st v l B p kl,
-    rch (RLoop k i st) (XCount v l B) p kl = rch_block B (loop_p p) i st ((pkey p, k) :: kl).
-Proof. reflexivity. Qed.
-Lemma rch_call : forall cid i st t a ins body p kl, rch (RCall cid i st) (XCall t a ins body) p kl = kl.
-Proof. reflexivity. Qed.
-Lemma rch_par : forall sts bs p kl, rch (RPar sts) (XParallel bs) p kl = kl.
-Proof. reflexivity. Qed.
-Lemma rch_await : forall id s p kl, rch (RAwait id) s p kl = kl.
-Proof. intros. destruct s; reflexivity. Qed.
-
-(* where counting loops may stand ([rt] = in the production task itself) and which parameters
-   may mention loop indices ([NC] = the program has no counting loop) *)
+(* which parameters may mention loop indices ([NC] = the program has no counting loop: then any;
+   otherwise none).  [rt] is not used any more (it once confined counting loops to the
+   production task) *)
 Fixpoint sok (NC rt : bool) (s : xstmt) : bool :=
   match s with
   | XService _ _ ins => NC || idxfree ins
-  | XCall _ _ ins body => (NC || idxfree ins) && forallb (sok NC false) body
+  | XCall _ _ ins body => (NC || idxfree ins) && forallb (sok NC rt) body
   | XParallel bs => forallb (sok NC rt) bs
   | XCond _ P F => forallb (sok NC rt) P && forallb (sok NC rt) F
   | XWhile _ B => forallb (sok NC rt) B
-  | XCount _ _ B => negb NC && rt && forallb (sok NC rt) B
+  | XCount _ _ B => negb NC && forallb (sok NC rt) B
   | XParLoop _ _ _ => false
   end.
 Definition sok_block (NC rt : bool) (l : list xstmt) : bool := forallb (sok NC rt) l.
@@ -1632,19 +1733,6 @@ Proof.
   intros NC rt l i s H Hn. unfold sok_block in H. rewrite forallb_forall in H. apply H. eapply nth_error_In. exact Hn.
 Qed.
 
-Lemma rch_nocount : forall NC st s p kl, sok NC false s = true -> rch st s p kl = kl.
-Proof.
-  intros NC. induction st as [|id|cid i st' IH|sts IH|b i st' IH|k i st' IH|sts IH] using rst_ind';
-    intros s p kl H; try (destruct s; reflexivity).
-  - destruct s as [| | |e P F| | | ]; try reflexivity. cbn [rch].
-    destruct (nth_error (if b then P else F) i) as [s'|] eqn:En; [|reflexivity].
-    apply IH. cbn [sok] in H. apply andb_prop in H. destruct H as [HP HF].
-    destruct b; [apply (sok_block_nth NC false P i s' HP En)|apply (sok_block_nth NC false F i s' HF En)].
-  - destruct s as [| | | |e B|v l B| ]; try reflexivity; cbn [rch].
-    + destruct (nth_error B i) as [s'|] eqn:En; [|reflexivity].
-      apply IH. cbn [sok] in H. apply (sok_block_nth NC false B i s' H En).
-    + cbn [sok] in H. rewrite andb_false_r in H. discriminate H.
-Qed.
 
 (* the keys of the running loops are sites above the position: a loop that starts has a new key *)
 Definition klb (kl : list (site * nat)) (p : pos) : Prop :=
